@@ -22,9 +22,7 @@ func init() {
 	}
 	imp := func(id, from string, mapping map[string]string, expl string) {
 		extend(id, expl, func(c *Ctx) {
-			t := NewCtx(c.Prog, from, c.Tier, c.OutDir)
-			Registry[from].Run(t)
-			c.Import(t, mapping, " (= "+from+"'s rule, a necessary condition of this property too)")
+			importFrom(c, from, mapping)
 		})
 	}
 	extend("C08", "(R8.7) while a partition-style Deployment release is in progress, every admitted update passes the revision-change test, and a revision change freezes the advanced-deployment strategy (strategy.paused = true in the annotation that is written back) before the annotation is written.", r3C08)
